@@ -41,7 +41,13 @@ func vfLoopVector(t *testing.T, rec *vfRec, v, inp map[string]any) {
 			if ms := vfInt(stalls, fmt.Sprint(k), 0); ms > 0 {
 				time.Sleep(time.Duration(ms) * time.Millisecond)
 			}
-			<-ipC
+			// (a loop that goes on choosing waits without ever asking again would let virtual time run for ever)
+			select {
+			case <-ipC:
+			case <-time.After(4*mx + time.Hour):
+				k = 1 << 30
+				continue
+			}
 			times = append(times, int(time.Since(start)/time.Millisecond))
 		}
 		cancel()
